@@ -98,21 +98,69 @@ def only_after_miss(fn, a_bb, b_bb):
 
 
 def returned_unchanged(chk, fn, rule, fk, c1_bb, what):
-    """On the success edge, c1's hit is what the function returns."""
-    ok = False
-    for i, j, st in fn.stmts():
-        if st["k"] == "assign" and st["place"]["l"] == 0 and not st["place"]["p"]:
-            ap = fn.apath(st["rv"]["a"]) if st["rv"]["k"] == "use" else fn.apath_place({"l": 0, "p": [], "ty": ""}) if False else None
-            if st["rv"]["k"] == "agg" and st["rv"].get("variant") in ("Some", "Ok") and st["rv"]["ops"]:
-                inner = fn.apath(st["rv"]["ops"][0])
+    """On the success edge, c1's hit is what the function returns: from every hit edge of a test of c1's result, whatever is
+    assigned to the return slot before the function returns is that result (as it is, or re-wrapped `Some(x)` of its payload).
+    Holds for `if let Some(v) = c1 { return Some(v) }`, `if r.is_some() { return r }`, and the single-exit form
+    `let mut r = c1; if r.is_none() { r = c2; } r` (the reassignment is not on the hit side)."""
+    from facts import place_of
+    hit_targets = []
+    for s, kind, ap, info in switch_tests(fn):
+        ap, flip = peel_not(ap) if kind == "bool" else (ap, False)
+        steps = 0
+        while steps < 4 and ap[0][0] == "call" and ap[0][3] != c1_bb and ap[0][2] and not ap[1]:
+            n = ap[0][1]
+            if n.endswith(("Option::<T>::is_some", "Result::<T, E>::is_ok", "Try>::branch")):
+                ap = ap[0][2][0]
+            elif n.endswith(("Option::<T>::is_none", "Result::<T, E>::is_err")):
+                ap = ap[0][2][0]
+                flip = not flip
+            else:
+                break
+            steps += 1
+        if _root_call_bb(ap) != c1_bb or ap[1]:
+            continue
+        for lab, tgt, name in edge_names(fn, s, kind, info):
+            if name in POS or name in NEG:
+                if (name in POS) != flip:
+                    hit_targets.append(tgt)
+    ok, bad = False, []
+    for tgt in hit_targets:
+        reach = fn.reachable(tgt)
+        for i, j, st in fn.stmts():
+            if i not in reach or st["k"] != "assign" or st["place"]["l"] != 0 or st["place"]["p"]:
+                continue
+            rv = st["rv"]
+            val = None
+            if rv["k"] == "use":
+                c = rv["a"].get("const") if isinstance(rv["a"], dict) else None
+                if c is not None and c.get("ty") == "bool":
+                    if c.get("int") == 1:
+                        ok = True
+                    else:
+                        bad.append(fn.where(i, j))
+                    continue
+                val = fn.apath(rv["a"], 16, (i, j))
+                pl = place_of(rv["a"])
+                if val[0][0] == "local" and pl is not None and not pl["p"]:
+                    # a reassigned local: no reassignment on the hit side, and c1's result is one of the definitions in force
+                    later = [d for d in fn.defs().get(pl["l"], []) if d[1] in reach]
+                    if not later and any(d[0] == "call" and d[1] == c1_bb for d in fn.reaching(pl["l"], (i, j))):
+                        val = (("call", "", (), c1_bb), ())
+            elif rv["k"] == "agg" and rv.get("variant") in ("Some", "Ok") and rv["ops"]:
+                inner = fn.apath(rv["ops"][0], 16, (i, j))
                 if _root_call_bb(inner) == c1_bb and inner[1] in (("as Some", "0"), ("as Ok", "0")):
-                    ok = ok or ("pos" in labels_on_call(fn, i, c1_bb))
-            elif ap is not None and _root_call_bb(ap) == c1_bb and not ap[1]:
-                ok = ok or ("pos" in labels_on_call(fn, i, c1_bb))
-            elif st["rv"]["k"] == "use" and (st["rv"]["a"].get("const") or {}).get("ty") == "bool" and (st["rv"]["a"].get("const") or {}).get("int") == 1:
-                ok = ok or ("pos" in labels_on_call(fn, i, c1_bb))
-    chk.decide(ok, rule, fk, what, fn.where(c1_bb), "a hit of the preferred lookup is returned unchanged",
-               "the result of the preferred lookup at %s is not returned as-is on its success edge" % fn.where(c1_bb))
+                    val = (("call", "", (), c1_bb), ())
+                else:
+                    val = inner
+            elif rv["k"] == "agg" and rv.get("variant") in ("None", "Err"):
+                bad.append(fn.where(i, j))
+                continue
+            if val is not None and _root_call_bb(val) == c1_bb and not val[1]:
+                ok = True
+            elif val is not None:
+                bad.append(fn.where(i, j))
+    chk.decide(ok and not bad, rule, fk, what, fn.where(c1_bb), "a hit of the preferred lookup is returned unchanged",
+               "the result of the preferred lookup at %s is not returned as-is on its success edge%s" % (fn.where(c1_bb), (" (something else is returned at %s)" % bad[0]) if bad else ""))
 
 
 def gate(chk, fn, rule, fk, action_bbs, guard_pred, what, need="pos", ok_detail="", bad_detail=""):
@@ -137,12 +185,13 @@ def switch_tests(fn):
         if b["cleanup"] or b["term"]["k"] != "switch":
             continue
         info = fn.switch_info(s)
+        # (flow-sensitive: the definition of a reassigned local that is in force at this test)
         if info["kind"] == "discr":
-            yield s, "variant", fn.apath_place(info["place"]), info
+            yield s, "variant", fn.apath_place(info["place"], 16, (s, None)), info
         elif info["kind"] == "bool":
-            yield s, "bool", fn.apath(b["term"]["discr"]), info
+            yield s, "bool", fn.apath(b["term"]["discr"], 16, (s, None)), info
         else:
-            yield s, "int", fn.apath(b["term"]["discr"]), info
+            yield s, "int", fn.apath(b["term"]["discr"], 16, (s, None)), info
 
 
 def edge_names(fn, s, kind, info):
